@@ -2753,6 +2753,16 @@ func (p *Posix) PutObject(ctx context.Context, po s3response.PutObjectInput) (s3
 			return s3response.PutObjectOutput{}, s3err.GetAPIError(s3err.ErrDirectoryObjectContainsData)
 		}
 
+		// The request is authenticated by the body reader when the end
+		// of the (empty) body is reached: read it, otherwise a request
+		// with a bad signature creates the directory.
+		if po.Body != nil {
+			_, err := io.Copy(io.Discard, po.Body)
+			if err != nil {
+				return s3response.PutObjectOutput{}, err
+			}
+		}
+
 		err = backend.MkdirAll(name, uid, gid, doChown, p.newDirPerm)
 		if err != nil {
 			if errors.Is(err, syscall.EDQUOT) {
